@@ -15,7 +15,7 @@ import (
 
 func init() {
 	register(&Rule{
-		ID: "KM-1", Props: []string{"C19"}, Min: 4,
+		ID: "KM-1", Props: []string{"C19"}, Min: 3,
 		Doc: `a rolled k-mer word is masked before it is used: in pkg/obikmer every variable that is shifted left by one symbol (X <<= 2, X = X << 2, X = X.LeftShift(2))
 must, on every path from the shift to a use of X as a key/argument/element/result, pass through an And with a non-constant mask (the k-mer mask); otherwise symbols older than
 k stay in the word and the forward word differs from what the reverse word encodes (keys are not strand-invariant). Typestate over go/cfg. Tabled: words whose type is
